@@ -52,7 +52,11 @@ def run(res, tier):
             traces[t["id"]] = t
         for b in bad:
             t = traces[b["id"]]
-            res.violation("proxy:" + t["scen"]["order"] + f":peers{t['scen']['peers']}:" + "+".join(sorted(c.split()[0] for c in b["clauses"])),
+            ks = "+".join(sorted(c.split()[0] for c in b["clauses"]))
+            if "udp" in t:
+                res.violation("proxy:udp:" + ks, "; ".join(b["clauses"]) + f" (trace {b['id']}: sent {[x['n'] for x in t['udp']['sent']][:12]}..., upstream received {[(x['seq'], x['n'], x['intact']) for x in t['udp']['recv']][:12]}...)", t)
+                continue
+            res.violation("proxy:" + t["scen"]["order"] + f":peers{t['scen']['peers']}:" + ks,
                           "; ".join(b["clauses"]) + f" (trace {b['id']}, scenario {t['scen']})", t)
     res.assumptions += ["loopback TCP on both sides (kernel TCP trusted); TLS and Unix-socket transports are not exercised",
                         "upstream bytes carry the peer index in their high bit so that the client can attribute interleaved bytes"]
